@@ -6,6 +6,7 @@
 //
 ///////////////////////////////////////////////////////////////////////////////
 #define CPPCMS_SOURCE
+#include <booster/verif_hooks.h>
 #include "cgi_api.h"
 #include "cgi_acceptor.h"
 #include <cppcms/service.h>
@@ -666,10 +667,15 @@ namespace cgi {
 			hdr.to_host();
 			size_t buffer_size = get_buffer_size();
 			
+#ifdef ARTYOM_BEILIS_CPPCMS_VERIF
+			if(buffer_size < sizeof(hdr) + hdr.content_length + hdr.padding_length) CPPCMS_VERIF_PROBE("fastcgi.record_not_yet_complete_in_cache");
+			if(hdr.padding_length) CPPCMS_VERIF_PROBE("fastcgi.padded_record");
+#endif
 			if(buffer_size < sizeof(hdr) + hdr.content_length + hdr.padding_length)
 				return false;
 			skip_bytes(sizeof(hdr));
 			header_ = hdr;
+			CPPCMS_VERIF_PROBE("fastcgi.record_served_from_cache");
 			size_t cur_size=body_.size();
 			size_t rec_size=header_.content_length+header_.padding_length;
 			if(rec_size==0) {
